@@ -128,6 +128,29 @@ static const char *const cf_pool[] = {
     "\xe6\x97\xa5\xe6\x9c\xac\xe8\xaa\x9e key",
     /* long */
     CF_LONG1, CF_LONG2, CF_LONG2 "\n" CF_LONG2,
+    /* multi-line scalars that exercise line folding / wrapping / chomping:
+     * long lines (100-300 columns) with and without leading indentation,
+     * trailing spaces before the newline, trailing newline(s) or none,
+     * lines of only spaces, tab indentation */
+    "note:\n  indented " CF_LONG2 "\nend",
+    " " CF_LONG2 "\nshort",
+    CF_LONG2 " " CF_LONG2 "\n" CF_LONG2 " " CF_LONG2 "\n",
+    "first\n    deeper " CF_LONG2 " " CF_LONG2 "\nback",
+    "a\n " CF_LONG1 " tail word\nb",
+    "\t" CF_LONG2 "\nx",
+    "abc   \ndef", "abc \n", "trailing spaces   \n   \nend  ",
+    "a\n   \nb", "   \n", "a\n \n \nb", " \n \n",
+    CF_LONG2 "\n\n", CF_LONG2 "\n\n\n" CF_LONG2, "\n\n" CF_LONG2,
+    CF_LONG1 CF_LONG1 "\n" CF_LONG1,
+    "  two-space indent on every line " CF_LONG2 "\n  second " CF_LONG2 "\n",
+    "x\n  - looks like a list item " CF_LONG2 "\n  key: value " CF_LONG2,
+    /* very long single-line scalars / keys: beyond libyaml's 128-byte
+     * simple-key limit and beyond 1024 bytes */
+    CF_LONG2 " " CF_LONG2 " " CF_LONG2 " " CF_LONG2 " " CF_LONG2 " " CF_LONG2
+	" " CF_LONG2 " " CF_LONG2,
+    CF_LONG1 CF_LONG1 CF_LONG1 CF_LONG1 CF_LONG1 CF_LONG1,
+    " " CF_LONG2 " " CF_LONG2 " ",
+    CF_LONG2 ": " CF_LONG2 " #" CF_LONG2,
 };
 #define CF_NPOOL ((int)(sizeof(cf_pool) / sizeof(cf_pool[0])))
 #define CF_NPLAIN 11		/* indices 1..10 are the plain strings */
@@ -453,7 +476,7 @@ static int cf_set_vnacal(void *ctx, int op, const char *text)
 	!= NULL ? 0 : -1;
 }
 
-#define CF_PATHMAX 16384
+#define CF_PATHMAX 131072
 
 /*
  * cf_build: realise the abstract tree below the element addressed by
